@@ -1,11 +1,18 @@
 """C13 -- the protocol version is negotiated downward only and then enforced."""
 from engine import core
 from .common import recv_job
+from .fsm_common import fsm_job
+from .sync_common import *
 
-INFO = {"outside": "streams longer than L bytes in one PDU", "assumptions": []}
+INFO = {"outside": "wip", "assumptions": []}
 MANIFEST = {"text": "wip", "note": "wip"}
 
 
 def jobs(tier):
     L = 48 if tier == "quick" else 96
-    return [recv_job(core, "recv_version_L%d" % L, "ASSERT_C13", L, False)]
+    B = 8 if tier == "quick" else 12
+    J = [recv_job(core, "recv_version_L%d" % L, "ASSERT_C13", L, False),
+         fsm_job("fsm_version_b%d" % B, "ASSERT_C13", B, timeout=2400)]
+    for sk in fam_openers() + fam_after_cr() + [[CR, EOD], [CR, V4, EOD]]:
+        J.append(sync_job("ASSERT_C13", sk))
+    return J
